@@ -155,17 +155,28 @@ theorem gpf_mahalanobis_law (ν : MeasureTheory.Measure (Fin n → ℝ)) (μ : V
     exact (gpf_mahalanobis μ S P (Vec.of z) hP hS).2.2
   rw [h]
 
-/-- The factor the code builds from Eigen's LDLᵀ (`Pᵀ L √D`) meets the contract `SqrtOf`, given the
-    decomposition's own contract `A = Pᵀ L D Lᵀ P`, `D ≥ 0` (trusted of Eigen; checked numerically
-    through the Mahalanobis identity on every observed draw).  Holds for singular `A` as well. -/
+/-- The factor the code builds from Eigen's LDLᵀ (`Pᵀ L √max(D,0)`, fix 5d4e99d) meets the contract
+    `SqrtOf`, given the decomposition's own contract `A = Pᵀ L D Lᵀ P`, `D ≥ 0` (trusted of Eigen in exact
+    arithmetic; checked numerically through the Mahalanobis identity on every observed draw).  Holds
+    for singular `A` as well. -/
 theorem gpf_ldlt_factor (A L Pm : Mat ℝ n n) (d : Fin n → ℝ) (hd : ∀ i, 0 ≤ d i)
     (h : toM A = (toM Pm)ᵀ * toM L * diagonal d * (toM L)ᵀ * toM Pm) :
-    SqrtOf (Mat.of (fun i j => ((toM Pm)ᵀ * toM L * diagonal (fun i => Real.sqrt (d i))) i j)) A := by
+    SqrtOf (Mat.of (fun i j => ((toM Pm)ᵀ * toM L * diagonal (fun i => Real.sqrt (max (d i) 0))) i j)) A := by
   unfold SqrtOf
-  have : toM (Mat.of (fun i j => ((toM Pm)ᵀ * toM L * diagonal (fun i => Real.sqrt (d i))) i j))
-      = (toM Pm)ᵀ * toM L * diagonal (fun i => Real.sqrt (d i)) := rfl
+  have : toM (Mat.of (fun i j => ((toM Pm)ᵀ * toM L * diagonal (fun i => Real.sqrt (max (d i) 0))) i j))
+      = (toM Pm)ᵀ * toM L * diagonal (fun i => Real.sqrt (max (d i) 0)) := rfl
   rw [this]
   exact GPFProofs.ldlt_factor (toM A) (toM L) (toM Pm) d hd h
+
+/-- When rounding leaves a pivot slightly negative (the singular case), the clamped factor is a square
+    root of `A` plus the clamped-away part: `S Sᵀ = A + Pᵀ L max(−D,0) Lᵀ P`, for *any* pivots — the
+    position is always defined (no square root of a negative number is taken). -/
+theorem gpf_ldlt_factor_clamped (A L Pm : Mat ℝ n n) (d : Fin n → ℝ)
+    (h : toM A = (toM Pm)ᵀ * toM L * diagonal d * (toM L)ᵀ * toM Pm) :
+    ((toM Pm)ᵀ * toM L * diagonal (fun i => Real.sqrt (max (d i) 0))) *
+      ((toM Pm)ᵀ * toM L * diagonal (fun i => Real.sqrt (max (d i) 0)))ᵀ
+      = toM A + (toM Pm)ᵀ * toM L * diagonal (fun i => max (-(d i)) 0) * (toM L)ᵀ * toM Pm :=
+  GPFProofs.ldlt_factor_clamped_excess (toM A) (toM L) (toM Pm) d h
 
 /-- The same statement for the quadratic form the code computes with its own inverse routine. -/
 theorem gpf_quad_eq (inv : Mat ℝ n n → Mat ℝ n n) (μ : Vec ℝ n) (S P : Mat ℝ n n) (z : Vec ℝ n)
